@@ -76,8 +76,9 @@ func (m *Engine) RunPending() {
 
 	// Resolve and run the command
 	command := m.resolve(pending)
-
-	command()
+	if command != nil {
+		command()
+	}
 
 	// And adapt the local keymap.
 	if len(m.pending) == 0 && m.Local() == ViOpp {
